@@ -54,6 +54,15 @@ def gen_cases(ctx):
             else:
                 c["x"] = [[float(rng.randint(-4, 4)) for _ in range(ny)] for _ in range(nx)]
             cases.append(c)
+    # designs thinner than the brush along one axis (even and odd widths): the dilation then runs on an image smaller than its kernel
+    thin = [([4, 9], 5.0), ([2, 7], 3.0), ([8, 4], 5.0), ([3, 8], 5.0)] + ([] if ctx.quick else [([6, 10], 7.0), ([9, 2], 3.0), ([4, 4], 5.0), ([5, 11], 6.0)])
+    for shape, dia in thin:
+        for _ in range(ctx.pick(4, 6)):
+            nx, ny = shape
+            c = {"shape": list(shape), "diameter": dia}
+            c["x"] = ([[float(rng.choice([-1, 1])) for _ in range(ny)] for _ in range(nx)] if rng.random() < 0.4
+                      else [[float(rng.randint(-4, 4)) for _ in range(ny)] for _ in range(nx)])
+            cases.append(c)
     if not ctx.quick:
         for _ in range(10):
             c = gen_case(rng, False)
